@@ -560,6 +560,29 @@ example : ((resolveCalls (wCfgU [] 0) wMisspelt.full.calls).map (·.map (fun t =
         (·.map (fun t => t.2 t.1.args)))
       = some [.ok "no tool t(a)", .ok "t(b)"] := by decide
 
+/-! ## tools that stream lazily and honour their context -/
+
+/-- **lazy_tool_result_complete.** Source fact `toolCallCtxNotScoped` (no function between the
+    tools node and a tool derives a context that can end on its own — `ToolsNode.Stream` only
+    opens the tool streams, they are read after it has returned): a streamable tool that produces
+    its chunks lazily and looks at its context before each of them delivers, in Stream mode as in
+    Generate, next to sibling calls or alone, the concatenation of all its chunks — the tool's
+    output `f args` that `AnswerOf` / `transcript_cons` / `react_history` put into the history,
+    `react_result_direct` returns for a return-directly tool, and `generate_eq_stream_partial` /
+    `generate_eq_stream_whole` equate between the modes. (The model's tools are functions
+    `args ↦ output`; this theorem is what licenses reading a lazily streamed result as one.) -/
+theorem lazy_tool_result_complete (siblings : Bool) (mode : LazyMode) (chunks : List String) :
+    lazyRead (!FactsC18.toolCallCtxNotScoped) siblings mode chunks = .ok (String.join chunks) := by
+  have h : FactsC18.toolCallCtxNotScoped = true := by decide
+  simp [lazyRead, h]
+
+/-- the fact matters: under a context the tools node ends itself, the lazily produced result of
+    one of several sibling calls is cut short or fails; a single call is not affected -/
+example : lazyRead true true .stop ["alpha-", "beta-", "gamma"] = .ok "alpha-" ∧
+    lazyRead true true .err ["alpha-", "beta-", "gamma"] = .error (.toolFailed 0) ∧
+    lazyRead true false .stop ["alpha-", "beta-", "gamma"] = .ok "alpha-beta-gamma" ∧
+    lazyRead false true .stop ["alpha-", "beta-", "gamma"] = .ok "alpha-beta-gamma" := by decide
+
 /-! ## several runs started from one message slice of the caller, overlapping in time -/
 
 /-- Source fact tie for the memory of the history: in package react every store into
